@@ -236,6 +236,7 @@ def run(repo, rep):
     if unchecked:
         rep.info("C07-e", f"{ENC}:search_grc_params", "state[i] = malloc(...) is used without a NULL test", "robustness observation (allocation failure only)")
     _alloc_vs_constant_stores(rep, enc, ENC)
+    _round5(repo, rep, enc)
     rep.floor("C07-e", 6)
 
     # ---------------------------------------------------------------- f (Python side)
@@ -475,3 +476,47 @@ def _alloc_vs_constant_stores(rep, cu, rel):
                                    f"(reachable from an exported function without a guard; e.g. mlw_codec.encode([]))") if short else "")
     if n < 1:
         raise AnalysisError("no malloc'd block with an unconditional constant-index store found (expected search_palette_sections.restart_pos)")
+
+
+def _round5(repo, rep, enc):
+    """(i) the end-of-stream marker is written on every path of mlw_encode (the decoder stops on it and on nothing else); the
+    encoding configuration reaches the C encoder unexchanged: the IFM bit depth comes from the IFM operand, positional
+    arguments named like the callee's parameters sit at their positions."""
+    from .shared import swapped_argument_lint
+
+    rep.clause("C07-i", "mlw_encode emits the end-of-stream marker unconditionally; the IFM bit depth handed to the encoder is the IFM operand's; arguments named like the callee's "
+               "parameters are not exchanged on the way from the public API / the compiler to the encoder")
+    f = enc.functions["mlw_encode"]
+    eos = []
+    for nm, call in enc.calls(f):
+        if nm == "bitbuf_put" and "ZDIV_EOS" in enc.text(call):  # a macro: visible in the call's source text only
+            eos.append(call)
+    if len(eos) != 1:
+        raise AnalysisError(f"mlw_encode: {len(eos)} end-of-stream emissions found (1 expected)")
+
+    def conditional_ancestors(root, target, acc=()):
+        if root is target:
+            return list(acc)
+        for ch in root.get("inner", []) or []:
+            r = conditional_ancestors(ch, target, acc + ((root.get("kind"),) if root.get("kind") in ("IfStmt", "ForStmt", "WhileStmt", "DoStmt", "SwitchStmt", "ConditionalOperator") else ()))
+            if r is not None:
+                return r
+        return None
+
+    anc = conditional_ancestors(f, eos[0])
+    if anc is None:
+        raise AnalysisError("mlw_encode: end-of-stream emission not located in the function body")
+    rep.check(not anc, "C07-i", f"{ENC}:mlw_encode", "the end-of-stream marker (ZDIV_EOS) is written unconditionally",
+              f"the emission sits under {anc}: a stream for which the condition is false (e.g. one that already ends on a 128-bit boundary) has no terminator and the decoder reads past its end")
+    wc = repo.mod("weight_compressor")
+    ew = wc.func("encode_weight_and_scale_tensor")
+    ib = [st for st in ast.walk(ew) if isinstance(st, ast.Assign) and str(norm(st.targets[0])) == "ifm_bitdepth"]
+    if len(ib) != 1:
+        raise AnalysisError("encode_weight_and_scale_tensor: ifm_bitdepth definition not found")
+    src = str(norm(ib[0].value))
+    rep.check(src.startswith("op.inputs[0].") or src.startswith("op.ifm."), "C07-i", "ethosu/vela/weight_compressor.py:encode_weight_and_scale_tensor", "ifm_bitdepth is the element width of the IFM operand (inputs[0])",
+              f"`{src}`: the traversal (IFM block depth 32 vs 16, kernel padding 4 vs 2) is chosen from another operand's element width, so int16-IFM operators get the 8-bit weight layout")
+    n = swapped_argument_lint(repo, rep, "C07-i", ["api", "weight_compressor", "scheduler", "npu_performance"])
+    if n < 20:
+        raise AnalysisError(f"argument / parameter name agreement: only {n} sites")
+    rep.floor("C07-i", 20)
